@@ -3,6 +3,7 @@
 package app
 
 import (
+	"sync/atomic"
 	"encoding/json"
 	"fmt"
 	"os"
@@ -137,8 +138,15 @@ func vStdWorld(n int, semiSync bool, w int) (*fakes.World, *fakes.Tree, []string
 	vRegister(tree, hosts, nil)
 	tree.Put("master", hosts[0])
 	tree.Put("active_nodes", hosts)
+	// the life of a cluster leaves parents behind (ClearRecovery deletes only the child): every second world has them
+	if vWorldCount.Add(1)%2 == 0 {
+		tree.Put("recovery", nil)
+		tree.Put("health", nil)
+	}
 	return wd, tree, hosts
 }
+
+var vWorldCount atomic.Int64
 
 func vSortedKeys[V any](m map[string]V) []string {
 	var k []string
@@ -191,4 +199,17 @@ func TestVerifSmoke(t *testing.T) {
 		t.Logf("h3 hanging: %s (virtual %v)", cs["h3"], time.Since(t0))
 		t.Logf("events: %d", len(wd.TakeLog()))
 	})
+}
+
+// vAddSourceInfo does to a hand-built cluster view what getNodeStatesInParallel does to a probed one: every replica's
+// snapshot carries the MasterState of its source (in host order; the code does it in map order).
+func vAddSourceInfo(cs map[string]*nodestate.NodeState) {
+	for _, h := range vSortedKeys(cs) {
+		if cs[h] == nil || cs[h].SlaveState == nil {
+			continue
+		}
+		if src := cs[cs[h].SlaveState.MasterHost]; src != nil {
+			cs[h].MasterState = src.MasterState
+		}
+	}
 }
